@@ -104,7 +104,14 @@ def monitor(ctx, spec, r, label=""):
 VERBS = [False, [], ["progress_bar"], ["print_results"], ["print_times"], ["progress_bar", "print_results", "print_times"]]
 
 
+def pre_build(ctx):
+    import gen_units
+    gen_units.pre_build(ctx, "translate_driver")
+
+
 def run(ctx):
+    import gen_units
+    gen_units.g_unit(ctx, "translate_driver")
     k_unit(ctx)
     u = ctx.unit("D:search(best)", "D",
                  "1-3 search() calls, rotating optimizers, plateaus/ties, negative/zero/non-finite scores, constraints, every "
